@@ -269,6 +269,10 @@ def removal_span_rule(fb, it):
         return False, "a position that is not removed receives %s, specification its current leaf tree.get(i)" % sh(kv, 100)
     first = ("idx", L, mk_const("usize", 0))
     lastL = ("unwrap", ("call", "core::slice::<impl [T]>::last", (L,)))
+    if rng is not None:
+        # `L.first().unwrap()` (or a `let Some(&start) = L.first()` pattern) is L[0]
+        from .. import panics as _pn
+        rng = (_pn.norm_first(rng[0]) if isinstance(rng[0], tuple) else rng[0], rng[1])
     lastp1 = rng is not None and isinstance(rng[1], tuple) and (
         (rng[1][0] == "call" and rng[1][1].endswith("Add<usize>>::add") and len(rng[1][2]) == 2 and rng[1][2][0] == lastL and cint(rng[1][2][1]) == 1)
         or (rng[1][:2] == ("bin", "Add") and rng[1][2] == lastL and cint(rng[1][3]) == 1))
@@ -286,7 +290,9 @@ def removal_span_rule(fb, it):
     def built_in_loop(t):
         return isinstance(t, tuple) and t and t[0] == "phi" and isinstance(t[4], tuple) and t[4] and (
             t[4][0] == "vecnew" or (t[4][0] == "call" and re.search(r"Vec::<T>::(new|with_capacity)$", t[4][1])))
-    if not wr or any(c[2][1] != first or not (built_in_loop(c[2][2]) if mapped is None else c[2][2] in (mapped, ("unwrap", mapped))) for c in wr):
+    from .. import panics as _pn2
+    nf = lambda t: _pn2.norm_first(t) if isinstance(t, tuple) else t
+    if not wr or any(nf(c[2][1]) != first or not (built_in_loop(c[2][2]) if mapped is None else c[2][2] in (mapped, ("unwrap", mapped))) for c in wr):
         return False, "the values are written with set_range(%s, %s), specification set_range(L[0], values)" % (sh(wr[0][2][1], 40) if wr else None, sh(wr[0][2][2], 40) if wr else None)
     s = treefx.summarize(fb, it)
     if s["f1"] or [x[0] for x in s["f0"]] != ["elems"] or s["f0"][0][1] != L:
